@@ -596,6 +596,8 @@ def generate(rng, index, tier):
                              'rs': rng.getrandbits(16), 'key': '%08x' % rng.getrandbits(32)})
     plan = {'seed': rng.getrandbits(32), 'net': net, 'regimes': regimes, 'dist_obf': rng.random() < 0.5,
             'frames': frames, 'teardown': teardown, 'badfirst': badfirst, 'slowfirst': slowfirst}
+    if rng.random() < 0.12:
+        plan['raising_matcher'] = True
     if rng.random() < 0.1 and 'ServerSearchRequest.Response' in POOL['server']:
         # the distributed child never reads and the server sends search requests large enough to fill the send path
         plan['child_stall'] = True
@@ -711,6 +713,11 @@ def corpus(tier):
                 out.append(dict(_plan(lst, teardown={'src': 'dist', 'kind': kind, 'after': 1, 'cut': 3, 'lag': 0.0,
                                                       'cls': 'DistributedChildDepth.Request', 'var': 2, 'key': key}),
                                 child_stall=True))
+    # 10. the application waits for the very message classes that arrive, with field matchers of its own that fail
+    for k in range(3):
+        lst = [{'src': l, 'kind': 'valid', 'cls': _A[FAMILY[l]][(i + k) % 2], 'var': 1 + i, 'gap': 0.2, 'key': key}
+               for l in ('server', 'pclear', 'pobf') for i in range(3)]
+        out.append(dict(_plan(lst), raising_matcher=True))
     # 8. a well-formed first frame in two parts with a pause between them
     for port in ('clear', 'obf'):
         for cut in (0, 3, 9):
@@ -861,6 +868,7 @@ def _run(world: World, plan):
     regimes = plan.get('regimes') or {}
     teardown = plan.get('teardown')
     frames_by_link = {link: [r for r in plan['frames'] if r.get('src') == link] for link in LINKS}
+    matcher_futs = []
 
     # ---- monitors (first listeners) ---------------------------------------------------
     ev_log = []                 # (t, iteration, connection, message)
@@ -1127,6 +1135,34 @@ def _run(world: World, plan):
         # the scripted server stops answering requests: from here on every frame on the server link is ours
         server.silent.update(server._DEFAULTS.keys())
         await asyncio.sleep(1.5)
+        if plan.get('raising_matcher'):
+            # the application waits for messages with field matchers of its own (callables) that fail on what arrives:
+            # a failing matcher is the application's problem, the reader goes on
+            import dataclasses
+
+            def failing(value):
+                fired['application_matcher_raised'] += 1
+                raise ValueError(f'application matcher cannot handle {value!r:.20}')
+            seen_cls = set()
+            for lname in ('server', 'pclear', 'pobf'):
+                fam = FAMILY[lname]
+                for rec in frames_by_link[lname]:
+                    if rec.get('kind') != 'valid' or (lname, rec.get('cls')) in seen_cls or len(seen_cls) >= 6:
+                        continue
+                    try:
+                        msg_cls = type(build_message(fam, rec['cls'] if rec['cls'] in POOL[fam] else POOL[fam][0],
+                                                     int(rec.get('var', 0))))
+                        names = [f.name for f in dataclasses.fields(msg_cls) if f.name not in ('MESSAGE_ID',)]
+                    except Exception:     # noqa
+                        continue
+                    if not names:
+                        continue
+                    seen_cls.add((lname, rec.get('cls')))
+                    if lname == 'server':
+                        fut = network.create_server_response_future(msg_cls, fields={names[0]: failing})
+                    else:
+                        fut = network.create_peer_response_future(lname, msg_cls, fields={names[0]: failing})
+                    matcher_futs.append(fut)
         session = server.session_of('alice')
         if session is None:
             harness['session'] = 'no server session'
